@@ -76,7 +76,7 @@ def cases(tier, seed):
                     "n": nidx, "r": rad, "center": [float(rng.uniform(0, 1.5)), float(rng.uniform(0, 1.5)), float(rng.uniform(-2, 10) if lens else rng.uniform(5, 20))],
                     "theory": {"t": "MieLens", "lens_angle": float(rng.uniform(0.3, 1.1)), "kw": {}} if lens else {"t": "Mie", "kw": {}},
                     "shape": [int(rng.integers(1, 7)), int(rng.integers(2, 7))], "spacing": [float(rng.uniform(0.1, 0.4)), float(rng.uniform(0.1, 0.4))],
-                    "form": {"wl": ["dict", "array", "array_perm"][i % 3], "pol": ["dict", "array_perm"][(i // 3) % 2], "n": ["dict", "array_perm", "scalar"][(i // 2) % 3],
+                    "form": {"wl": ["dict", "array", "array_perm", "scalar"][i % 4] if i % 5 else "scalar", "pol": ["dict", "array_perm"][(i // 3) % 2], "n": ["dict", "array_perm", "scalar"][(i // 2) % 3],
                              "r": ["scalar", "dict"][(i // 5) % 2], "scaling": ["dict", "scalar"][(i // 7) % 2], "detector": ["grid", "image"][(i // 4) % 2]},
                     "seed": [seed, "multi", i]})
     return out
@@ -174,7 +174,12 @@ def _run_multi(case):
         ks = [labs[i] for i in rng.permutation(nch)]
         return {k: d[k] for k in ks}
     wl, scaling, noise, nidx, rad = shuffled(wl), shuffled(scaling), shuffled(noise), shuffled(nidx), shuffled(rad)
-    wl_arg = wl if form["wl"] == "dict" else as_array(wl, labs if form["wl"] == "array" else perm)
+    if form["wl"] == "scalar":
+        # channels that differ in polarization / particle properties only: one wavelength, given as a plain number
+        wl = {l: wl[labs[0]] for l in labs}
+        wl_arg = wl[labs[0]]
+    else:
+        wl_arg = wl if form["wl"] == "dict" else as_array(wl, labs if form["wl"] == "array" else perm)
     if form["pol"] == "dict":
         # two- and three-component vectors of arbitrary norm mean the same direction
         pol_arg = {l: (tuple(v) if i % 2 else (2.5 * v[0], 2.5 * v[1], 0.0)) for i, (l, v) in enumerate(shuffled(pol).items())}
